@@ -5,6 +5,16 @@ HERE = os.path.dirname(os.path.abspath(__file__))
 
 # id -> (implemented, engine, level, technique, text, note, design_ref)
 CHECKS = {
+ "C12": (True, "velocity+nodevel", "model_checking",
+   "explicit-state search over the real VelocityControl (closes per config) and bounded exhaustive histories of approvals, clock advances and restarts on a real node, against a sliding-window oracle",
+   "Component: for limits {0, 100, 2^64-2}, 1-4 buckets and the three interval types, every sequence of insert(now+dt, amount) over bucket-edge time deltas and limit-edge amounts up to the depth bound / state closure, with the sum of approved amounts in any (N-1)-bucket window compared with the limit in u128. Node: every history of <= 5 (7) letters (keysend / invoice / on-chain fee at limit edges, clock +1/+11/+12 buckets, restart) on a real node with hourly limits; the same oracle on the log of approvals, across restarts.",
+   "ManualClock; non-decreasing time (as in the statement).",
+   "5.3"),
+ "C15": (True, "nodemc", "model_checking",
+   "bounded exhaustive histories of open/new/forget/heartbeat/block macro-steps/disconnect/restart on a real node with ghost predicates",
+   "Every history of <= 5 (7) letters in four scenarios (life cycle from nothing, mutual close, funding double-spend, unilateral close with HTLC sweeps): NewChannel, ForgetChannel, GetHeartbeat, blocks carrying funding / double-spend / mutual close / sweeps, macro-steps of 1, 98 and 99 empty blocks (straddling the 100-block depth), disconnects and restarts; after every letter each ready channel must be present live and in the store unless a forget was requested and the close is buried >= 100 on the harness's own copy of the best chain; a NewChannel at or below a forgotten id must fail.",
+   "Depth-bounded (not closed): the bounded space of histories is covered completely.",
+   "6.3"),
  "C13": (True, "chain13", "model_checking",
    "explicit-state BFS over add/remove requests (one defect per request) on the real tracker of a real node, independent accept/reject prediction, atomicity + follow-up probe",
    "All sequences of valid and single-defect add/remove requests (wrong previous hash, insufficient work, changed bits, proof for another block, wrong filter header / height in the attestation, untrusted key, too few or duplicated oracles, forged attestation signature, omitted spend, non-streamed full-block proof; wrong previous header / filter header on removal) over blocks that are empty, confirm the watched funding txid or spend a watched outpoint, with 0-4 trusted oracles, compact and streamed delivery and restarts, until closure. Accepting a defective request, changing any state on rejection, or failing the correct request afterwards is a violation.",
